@@ -204,6 +204,8 @@ func (_this *Context) BeginMap() {
 	_this.beginContainer(&mapKeyRule, DataTypeMap, noObjectCount)
 }
 
+type timeKey string
+
 func (_this *Context) NotifyKey(key interface{}) {
 	if v, ok := key.(negint); ok && v != 0 {
 		// Normalize so that the same value is the same key no matter which
@@ -252,7 +254,8 @@ func (_this *Context) NotifyKey(key interface{}) {
 		copy(uid[:], v)
 		key = uid
 	case compact_time.Time:
-		key = v.String()
+		// Not a plain string: a string key with the same text is a different key.
+		key = timeKey(v.String())
 	case *big.Int:
 		if v.IsUint64() {
 			key = v.Uint64()
